@@ -144,6 +144,9 @@ class G2:
             name = r.choice(names)
             c = qgen.COLLECTIONS[self.b][name]
             bank = r.choice(c["banks"]) if r.random() > 0.1 else "prod"
+            prev = [o["bank"] for o in self.occ if o["coll"] != name]
+            if prev and r.random() < 0.15:
+                bank = r.choice(prev)  # deliberately the bank name another collection of this query already uses
             self.occ.append({"coll": name, "bank": bank, "type": c["ctype"], "uncond": self.uncond and not env["objs"] and not env["nums"]})
             return f'e.{name}("{bank}")', c["etype"]
         if k == "subs":
